@@ -21,6 +21,12 @@ Open Scope N_scope.
 Definition dgen := (N * desc)%type.
 Definition gen_cfg (d : desc) : cg_cfg := cfg_of_bytes d 1 false (Some 16).
 
+(* generators the model is defined for: bytes, at least one of them (a ConstantStreamGenerator of no data does not
+   elaborate), fewer than 2048 (start_position has 11 bits) *)
+Definition gen_okb (g : dgen) : bool :=
+  forallb (fun b => b <? 256) (snd g) && (1 <=? nlen (snd g)) && (nlen (snd g) <? 2048).
+Definition gens_okb (gs : list dgen) : bool := forallb gen_okb gs.
+
 (* packed input word of a ConstantStreamGenerator (see ConstGen.v): start | start_position | max_length | ready *)
 Definition cg_in (c : cg_cfg) (start : bool) (sp ml : N) (ready : bool) : N :=
   b2n start + N.shiftl (trunc (c_spw c) sp) 1 + N.shiftl (trunc (c_mlw c) ml) (1 + c_spw c)
@@ -84,6 +90,28 @@ Section Dist.
   Definition ds_init : ds_state :=
     {| d_zlp := false; d_gens := map (fun g => (false, cg_init (gen_cfg (snd g)))) gens |}.
 
+  (* ---- the environment assumption of the lock-step obligation, stated on the model state (it is implied by the
+     specification-level assumption s_env, lemma dist_env_ok): while a generator is started or streaming, its
+     descriptor stays selected, start stays low and start_position / the length limit are held; a zero-length packet
+     is not overlapped with a new request; a request is legal (start_position < wLength, <= len(descriptor)). ---- *)
+  Definition gen_env (g : dgen) (s : bool * cg_state) (i : N) : bool :=
+    match g_fsm (snd s) with
+    | STREAMING => (fst g =? i_value i) && negb (i_start i) && (i_sp i + g_sent (snd s) =? g_pos (snd s))
+                   && (ds_len i =? g_ml (snd s))
+    | _ => if fst s then (fst g =? i_value i) && negb (i_start i) else true
+    end.
+  Fixpoint gens_env (gs : list dgen) (ss : list (bool * cg_state)) (i : N) : bool :=
+    match gs, ss with
+    | g :: gs', s :: ss' => gen_env g s i && gens_env gs' ss' i
+    | _, _ => true
+    end.
+  Definition ds_env (st : ds_state) (i : N) : bool :=
+    gens_env gens (d_gens st) i
+    && (if d_zlp st then negb (i_start i) else true)
+    && (if i_start i
+        then (i_sp i <? i_wlen i) && match sel_desc gens (i_value i) with Some d => i_sp i <=? nlen d | None => true end
+        else true).
+
   (* ---- packing of the model state for lock-step obligations: one 64-bit field per generator ---- *)
   Definition gen_enc (g : dgen) (s : bool * cg_state) : N := b2n (fst s) + 2 * cg_enc (gen_cfg (snd g)) (snd s).
   Definition gen_dec (g : dgen) (m : N) : bool * cg_state := (N.odd m, cg_dec (gen_cfg (snd g)) (N.div2 m)).
@@ -101,7 +129,7 @@ Section Dist.
   Definition ds_dec (m : N) : ds_state := {| d_zlp := N.odd m; d_gens := gens_dec gens (N.div2 m) |}.
 
   Definition gen_wf (g : dgen) (s : bool * cg_state) : Prop :=
-    cg_wf (gen_cfg (snd g)) (snd s) /\ g_rd (snd s) < 256 /\ 2 * c_posw (gen_cfg (snd g)) <= 22.
+    cg_wf (gen_cfg (snd g)) (snd s) /\ g_rd (snd s) < 256 /\ gen_okb g = true.
   Definition ds_wf (st : ds_state) : Prop := Forall2 gen_wf gens (d_gens st).
 End Dist.
 
